@@ -402,7 +402,7 @@ def run(ctx):
 
 
 MUTANTS = [
-    {'name': 'insert applies to the memtable before the journal append', 'edits': [('src/keyspace/mod.rs', "        let mut journal_writer = self.supervisor.journal.get_writer()?;\n\n        // IMPORTANT: Check the poisoned flag after getting journal mutex, otherwise TOCTOU\n        if self.is_poisoned.load(Ordering::Relaxed) {\n            return Err(crate::Error::Poisoned);\n        }\n\n        let seqno = self.supervisor.seqno.next();\n", "        let mut journal_writer = self.supervisor.journal.get_writer()?;\n\n        // IMPORTANT: Check the poisoned flag after getting journal mutex, otherwise TOCTOU\n        if self.is_poisoned.load(Ordering::Relaxed) {\n            return Err(crate::Error::Poisoned);\n        }\n\n        let seqno = self.supervisor.seqno.next();\n        let _early = self.tree.insert(key.clone(), value.clone(), seqno);\n", 1)]},
+    {'name': 'insert applies to the memtable before the journal append', 'edits': [('src/keyspace/mod.rs', "        let seqno = self.supervisor.seqno.next();\n\n        journal_writer\n            .write_raw(self.id, &key, &value, lsm_tree::ValueType::Value, seqno)", "        let seqno = self.supervisor.seqno.next();\n        let _early = self.tree.insert(key.clone(), value.clone(), seqno);\n\n        journal_writer\n            .write_raw(self.id, &key, &value, lsm_tree::ValueType::Value, seqno)")]},
     {'name': 'automatic persist dropped in remove', 'edits': [('src/keyspace/mod.rs', "        if !self.config.manual_journal_persist {\n            journal_writer\n                .persist(crate::PersistMode::Buffer)", "        if false {\n            journal_writer\n                .persist(crate::PersistMode::Buffer)", 2)]},
     {'name': 'sealed journals sorted descending', 'edits': [('src/journal/recovery.rs', "    journal_fragments.sort_by_key(|(a, _)| *a);", "    journal_fragments.sort_by_key(|(a, _)| std::cmp::Reverse(*a));\n    journal_fragments.rotate_left(1);")]},
     {'name': 'journal fragments not sorted at all', 'edits': [('src/journal/recovery.rs', "    journal_fragments.sort_by_key(|(a, _)| *a);", "")]},
